@@ -72,3 +72,6 @@ check('C18', 'other',
 check('C20', 'exploration',
       'Bounded round-trip contract with a spec-side DEF printer: all sections, wildcard resolution, via arrays, per-layer listings for special and regular nets.',
       'parser outside the VC generator', 'bounded runtime round-trip contract (ghost design)', 'DESIGN.md 5-C20')
+check('C15', 'other',
+      'Bounded (deciding): conversion contracts on the real functions vs an independent bit-by-bit oracle over shapes <= 3 axes / extents <= 10 (+16, 17), strings, aliases, 9 dtypes; popcount table under pyvc where discharged.',
+      'numpy bit twiddling is not modelled by the VC generator; bounded evidence', 'bounded runtime contracts (+ ground obligations for the popcount table)', 'DESIGN.md 5-C15')
